@@ -275,22 +275,23 @@ Definition line_s (id : Z) (rows : list (option (list (Z * Z)))) (uuids : list s
    they never do: "agree=T"). *)
 From Coq Require Import Uint63.
 
-Definition long_edge (kind n i : nat) : nat :=
+(* generators over binary integers (unary arithmetic on 5000-element indices is what would dominate) *)
+Fixpoint zseq (fuel : nat) (i : Z) : list Z :=
+  match fuel with 0 => [] | S f => i :: zseq f (i + 1)%Z end.
+Definition long_edge (kind : nat) (n i : Z) : Z :=
   match kind with
-  | 0 => i                                                       (* chain *)
-  | 1 => if Nat.even i then Nat.div2 i else n - 1 - Nat.div2 i   (* zig-zag: a permutation *)
-  | _ => if Nat.eqb i (n - n / 5) then n + 3 else i              (* chain, one edge without a row *)
+  | 0 => i                                                          (* chain *)
+  | 1 => if Z.even i then (i / 2)%Z else (n - 1 - i / 2)%Z           (* zig-zag: a permutation *)
+  | _ => if Z.eqb i (n - n / 5)%Z then (n + 3)%Z else i             (* chain, one edge without a row *)
   end.
-Definition long_geom (e : nat) : list (Z * Z) :=
-  let z := Z.of_nat e in
-  [(z, Z.of_nat (e mod 7)); (z + 1, Z.of_nat ((e + 3) mod 5))]%Z
-  ++ (if Nat.eqb (e mod 3) 0 then [(z + 2, 1)]%Z else []).
-Definition long_trav (kind n i : nat) : trav :=
-  T (long_edge kind n i) (Z.of_nat (i mod 4)) (Z.of_nat (10 + i mod 13)) [Z.of_nat i].
-Definition long_rows (n : nat) : list (option (list (Z * Z))) := map (fun e => Some (long_geom e)) (seq 0 n).
-Definition long_route (kind n : nat) : list trav := map (long_trav kind n) (seq 0 n).
+Definition long_geom (z : Z) : list (Z * Z) :=
+  ([(z, z mod 7); (z + 1, (z + 3) mod 5)] ++ (if Z.eqb (z mod 3) 0 then [(z + 2, 1)] else []))%Z%list.
+Definition long_trav (kind : nat) (n i : Z) : trav :=
+  T (Z.to_nat (long_edge kind n i)) (i mod 4)%Z (10 + i mod 13)%Z [i].
+Definition long_rows (n : nat) : list (option (list (Z * Z))) := map (fun e => Some (long_geom e)) (zseq n 0%Z).
+Definition long_route (kind n : nat) : list trav := map (long_trav kind (Z.of_nat n)) (zseq n 0%Z).
 Definition long_tree (kind n : nat) : list (nat * br) :=
-  map (fun i => (S i, B (Nat.div2 i) (long_trav kind n i))) (seq 0 n).
+  map (fun i => (Z.to_nat (i + 1), B (Z.to_nat (i / 2)) (long_trav kind (Z.of_nat n) i))) (zseq n 0%Z).
 
 Definition dstep (h : int) (x : Z) : int := (h * 1000003 + Uint63.of_Z x)%uint63.
 Definition dig (l : list Z) : Z := Uint63.to_Z (fold_left dstep l 7%uint63).
@@ -338,7 +339,8 @@ Definition long_fmt_m (kind n : nat) (with_tree : bool) (f : format) : string :=
 Definition long_fmt_s (kind n : nat) (with_tree : bool) (f : format) : string :=
   let route := long_route kind n in
   let tree := long_tree kind n in
-  let stored e := nth e (map long_geom (seq 0 n)) [] in
+  let table := map long_geom (zseq n 0%Z) in
+  let stored e := nth e table [] in
   let geo := match f with Wkt | Wkb | GeoJson => true | _ => false end in
   let missing := existsb (fun t => negb (Nat.ltb (edge_id t) n)) route in
   format_name f ++ " " ++
